@@ -175,8 +175,13 @@ def correspondence(ctx, model_ok):
         ctx.violations.append(core.Violation(what=what, key=key, replay=replay))
 
     # ------------------------------------------------------------ new query system
+    _atoms = {}
+
     def atom(i):
-        return Predicate.compare(qt.make_column_literal(i), "==", qt.make_column_literal(0))
+        # the same leaf *object* is reused wherever an atom occurs (as a caller combining its own predicates would do)
+        if i not in _atoms:
+            _atoms[i] = Predicate.compare(qt.make_column_literal(i), "==", qt.make_column_literal(0))
+        return _atoms[i]
 
     def leaf_txt(leaf):
         if leaf.predicate_type == "not":
@@ -244,7 +249,17 @@ def correspondence(ctx, model_ok):
             if n > LIMIT:
                 raise TooBig()
         p = xs[0].logical_and(*xs[1:]) if t == "&" else xs[0].logical_or(*xs[1:])
-        req.append(f"pred {'and' if t == '&' else 'or'} " + " ".join(enc_pred(x.operands, leaf_txt) for x in xs))
+        if t == "&":
+            # tell the model where `_impl_and`'s object-identity shortcut (`a is b`) applies
+            encs = [enc_pred(xs[0].operands, leaf_txt)]
+            acc = xs[0].operands
+            for x in xs[1:]:
+                same = acc is x.operands
+                encs.append(("=" if same else "") + enc_pred(x.operands, leaf_txt))
+                acc = acc if same else acc + x.operands
+            req.append("pred and " + " ".join(encs))
+        else:
+            req.append("pred or " + " ".join(enc_pred(x.operands, leaf_txt) for x in xs))
         impl.append(enc_pred(p.operands, leaf_txt))
         return p
 
@@ -285,6 +300,57 @@ def correspondence(ctx, model_ok):
         req.append(f"pred eval {penc} {asg}")
         impl.append(p.visit(Eval(asg)))
     ctx.extra["new_system_truth_table_rows"] = n_checked
+
+    # ------------------------------------------------------------ rewriting visitors (SimplePredicateVisitor)
+    from lsst.daf.butler.queries.visitors import SimplePredicateVisitor
+
+    class Rewriter(SimplePredicateVisitor):
+        """Replaces chosen atoms by an *equivalent* predicate, as the overlap-rewriting visitors of the query system do."""
+
+        def __init__(self, repl):
+            self.repl = repl
+
+        def visit_comparison(self, a, operator, b, flags):
+            return self.repl.get(a.value)
+
+    n_rw = 0
+    for f, na in formulas[:: 3 if ctx.quick() else 1]:
+        size_before = len(req)
+        try:
+            p = build(f)
+        except TooBig:
+            del req[size_before:], impl[size_before:]
+            continue
+        del req[size_before:], impl[size_before:]  # (already compared above)
+        atoms_here = sorted({int(l.lstrip("~")) for g in p.operands for l in map(leaf_txt, g)})
+        if not atoms_here:
+            continue
+        chosen = [k for k in atoms_here if rng.random() < 0.5] or [atoms_here[0]]
+        repl, spec = {}, []
+        for k in chosen:
+            kind = rng.choice(["and-self", "or-false", "double-not"])
+            if kind == "and-self":
+                r_ = Predicate.model_construct(operands=((atom(k).operands[0][0],), (atom(k).operands[0][0],)))
+            elif kind == "or-false":
+                r_ = Predicate.model_construct(operands=((atom(k).operands[0][0], atom(k).operands[0][0]),))
+            else:
+                r_ = atom(k).logical_not().logical_not()
+            repl[k] = r_
+            spec.append(f"{k}={enc_pred(r_.operands, leaf_txt)}")
+        new = p.visit(Rewriter(repl))
+        new = p if new is None else new
+        req.append(f"pred rewrite {enc_pred(p.operands, leaf_txt)} {'|'.join(spec)}")
+        impl.append(enc_pred(new.operands, leaf_txt))
+        n_rw += 1
+        ctx.evaluations += 1
+        for asg in itertools.product(K, repeat=na):
+            want = ev(f, asg)
+            got = new.visit(Eval(asg))
+            if got != want:
+                viol(f"rewriting visitor replacing atoms {chosen} by equivalent predicates in {f}: value {got} under {''.join(asg)}, original {want}",
+                     f"rewrite:{f}:{chosen}:{''.join(asg)}", {"kind": "rewrite", "formula": f, "replaced": chosen, "assignment": "".join(asg)})
+                break
+    ctx.count("rewriting-visitor", n_rw)
 
     # ------------------------------------------------------------ legacy normaliser
     parser = ParserYacc()
